@@ -205,7 +205,10 @@ func vC10Run(k *vKit, c vSx) (obs vSx, fo, fd string, nontrivial bool) {
 				bad("no-panic", "audio re-encode failed")
 			}
 			// canonical bodies: an Opus body keeps the (unused) rate bits of the first byte zero
-			canon := !(body[0]>>4 == byte(AudioCodecOpus) && body[0]&0x0c != 0)
+			canon := len(body) == 0 || !(body[0]>>4 == byte(AudioCodecOpus) && body[0]&0x0c != 0)
+			if len(body) < 2 {
+				bad("audio-accept", "a body shorter than 2 bytes was accepted")
+			}
 			if canon && !bytes.Equal(re, body) {
 				bad("audio-reencode", fmt.Sprintf("accepted body re-encodes to %x", re))
 			}
@@ -243,6 +246,9 @@ func vC10Run(k *vKit, c vSx) (obs vSx, fo, fd string, nontrivial bool) {
 			}
 			if !bytes.Equal(re, body) {
 				bad("video-reencode", fmt.Sprintf("accepted body re-encodes to %x", re))
+			}
+			if len(body) < 5 {
+				bad("video-accept", "a body shorter than 5 bytes was accepted")
 			}
 			k.count("video-body", "accepted")
 			nontrivial = g.Trait != 0 || g.CTS != 0
@@ -458,11 +464,13 @@ func TestVerifC10(t *testing.T) {
 	k := vNewKit(t, "C10")
 	defer k.close()
 	runOne := func(c vSx) {
-		obs, fo, fd, nt := vC10Run(k, c)
-		idx := k.record(c, obs, nt)
-		if fo != "" {
-			k.fail(idx, c.size(), fo, "", fd)
-		}
+		k.safely(c, func() {
+			obs, fo, fd, nt := vC10Run(k, c)
+			idx := k.record(c, obs, nt)
+			if fo != "" {
+				k.fail(idx, c.size(), fo, "", fd)
+			}
+		})
 	}
 	if k.replay != nil {
 		runOne(*k.replay)
